@@ -9,11 +9,18 @@
 //   SEC <name> <flags-hex> <alignment> <order>            extra section (ids 1..), created up front with code.new_section
 //   C <cid> <phase> <KIND> ...                            emitter call; phase 1 = script, 2 = issued by an `E emit`
 //     I <comment|-> <name|#id> <opts-hex> <extra|-> <nops> <op>...
-//     NL <k> <name|-> <type> <cn>                         new label k (cn=1: label of a ConstPoolNode / plain new_label for assemblers)
+//     NL <k> <name|-> <type> <cn> [<creator>]             new label k (cn=1: label of a ConstPoolNode / plain new_label for assemblers;
+//                                                         cn=2: label of the Compiler's global constant pool, made by the first GC call;
+//                                                         creator 1: CodeHolder::new_label_id(), 2: an idle second emitter on the same holder,
+//                                                         3: BaseBuilder::new_label_node())
+//     JA <k,k,..|-> <comment|-> <name|#id> <opts-hex> <extra|-> 1 <op>     Compiler: emit_annotated_jump(), others: like I
+//     GC <k> <hex> <comment|-> <name|#id> <opts-hex> <extra|-> <nops> <op>...   one <op> is `GC`: Compiler: _new_const(kGlobal, data) gives
+//                                                         that operand; others: [label k + offset] and the pool embedded after the last node
 //     B <k> | AL <mode> <alignment> | EM <hex|-> | ED <typeid> <items> <repeat> <hex|->
 //     CP <k> <size:hex,...|->  embed_const_pool | CN <k> <size:hex,...|->  ConstPoolNode + add_node (assembler: embed_const_pool)
 //     EL <k> <size> | LD <k> <kbase> <size> | CM <text> | SE <section-index>
 //   E rm <n> | rr <n> <n> | add <n> | mv <n> <ref|-> | ab <n> <ref> | aa <n> <ref> | cur <ref|-> | emit <cid> | ni <cid> | sn <Zn>
+//     (ni: the node of call <cid> is made by hand - new_inst_node/new_align_node/new_embed_data_node/new_comment_node - and add_node()d)
 //   R <tok>...   node order expected after phase 1      X <tok>...   node order expected after the edit script
 //     tok: <cid> (whole call) | L<k> (bind) | S<i> (section) | <cid>.a / <cid>.d (align / data node of a CP call)
 //   END
@@ -25,6 +32,7 @@
 #include <fstream>
 #include <iostream>
 #include <memory>
+#include <set>
 #include <sstream>
 #include <stdarg.h>
 #include <signal.h>
@@ -36,7 +44,7 @@ using namespace asmjit;
 // script flags
 enum : uint32_t {
   F_VALIDATE_ASM = 1, F_VALIDATE_INTERMEDIATE = 2, F_LOGGER = 4, F_OPT_SIZE = 8, F_OPT_ALIGN = 16, F_PREDICTED = 32,
-  F_EDIT_COMPILER = 64, F_BASE_ADDRESS = 128
+  F_EDIT_COMPILER = 64, F_BASE_ADDRESS = 128, F_CONTINUE = 256
 };
 
 static const uint64_t kBase = 0x40000000ull;
@@ -97,7 +105,7 @@ static a64::VecElementType et_of(const std::string& s) {
   return a64::VecElementType::kNone;
 }
 
-enum OpKind { OP_FIXED, OP_LABEL, OP_X86_MEM_LABEL, OP_A64_MEM_LABEL };
+enum OpKind { OP_FIXED, OP_LABEL, OP_X86_MEM_LABEL, OP_A64_MEM_LABEL, OP_GCONST };
 
 struct OpD {
   OpKind kind = OP_FIXED;
@@ -107,7 +115,7 @@ struct OpD {
   bool has_index = false; Reg idx; uint32_t shift = 0, size = 0, seg = 0, bcst = 0; int32_t disp = 0; std::string addr;
 };
 
-enum Kind { K_I, K_NL, K_B, K_AL, K_EM, K_ED, K_CP, K_CN, K_EL, K_LD, K_CM, K_SE, K_BAD };
+enum Kind { K_I, K_NL, K_B, K_AL, K_EM, K_ED, K_CP, K_CN, K_EL, K_LD, K_CM, K_SE, K_JA, K_GC, K_BAD };
 
 struct Call {
   int cid = 0, phase = 1;
@@ -127,6 +135,8 @@ struct Call {
   std::string text;
   std::vector<uint8_t> data;
   std::vector<std::vector<uint8_t>> pool;
+  std::vector<int> ann;   // JA: script labels put into the JumpAnnotation
+  int creator = 0;    // NL
   std::string desc;   // class of the call for violation keys
 };
 
@@ -260,13 +270,9 @@ static void parse_pool(const std::string& s, std::vector<std::vector<uint8_t>>& 
   }
 }
 
-static bool parse_call(Script& S, std::istringstream& ss, Call& c) {
-  ss >> c.cid >> c.phase >> c.kind_s;
-  const std::string& k = c.kind_s;
+static bool parse_inst(Script& S, std::istringstream& ss, Call& c) {
   bool is_a64 = S.arch == Arch::kAArch64;
-  c.desc = k;
-  if (k == "I") {
-    c.kind = K_I;
+  {
     std::string cm, opts_s, extra_s;
     ss >> cm >> c.name >> opts_s >> extra_s >> c.nops;
     if (cm != "-") { c.has_comment = true; c.comment = cm; }
@@ -276,9 +282,10 @@ static bool parse_call(Script& S, std::istringstream& ss, Call& c) {
     for (int i = 0; i < c.nops; i++) {
       std::string tok; ss >> tok;
       if (tok.empty()) return false;
+      if (tok == "GC") { c.ops[i].kind = OP_GCONST; continue; }
       if (is_a64) parse_a64_op(tok, c.ops[i], c.bad, has_vec);
       else parse_x86_op(tok, c.ops[i], c.bad);
-      if (c.ops[i].kind != OP_FIXED) { has_label = true; S.nlabels = std::max(S.nlabels, c.ops[i].label + 1); }
+      if (c.ops[i].kind != OP_FIXED && c.ops[i].kind != OP_GCONST) { has_label = true; S.nlabels = std::max(S.nlabels, c.ops[i].label + 1); }
     }
     if (extra_s != "-") {
       std::vector<std::string> p = split(extra_s, ':');
@@ -313,7 +320,35 @@ static bool parse_call(Script& S, std::istringstream& ss, Call& c) {
     if (c.opts) c.desc += "+opts";
     if (has_label) c.desc += "+label";
   }
-  else if (k == "NL") { c.kind = K_NL; std::string nm; ss >> c.k >> nm >> c.a >> c.b; if (nm != "-") c.text = nm; S.nlabels = std::max(S.nlabels, c.k + 1); }
+  return !ss.fail();
+}
+
+static bool parse_call(Script& S, std::istringstream& ss, Call& c) {
+  ss >> c.cid >> c.phase >> c.kind_s;
+  const std::string& k = c.kind_s;
+  c.desc = k;
+  if (k == "I") {
+    c.kind = K_I;
+    if (!parse_inst(S, ss, c)) return false;
+  }
+  else if (k == "JA") {
+    c.kind = K_JA;
+    std::string labs; ss >> labs;
+    if (labs != "-") for (const std::string& t : split(labs, ',')) { c.ann.push_back(atoi(t.c_str())); S.nlabels = std::max(S.nlabels, c.ann.back() + 1); }
+    if (!parse_inst(S, ss, c) || c.nops != 1) return false;
+    c.desc = "annotated-jump" + c.desc.substr(4);
+  }
+  else if (k == "GC") {
+    c.kind = K_GC;
+    std::string h; ss >> c.k >> h; c.data = unhex(h);
+    if (!parse_inst(S, ss, c)) return false;
+    c.desc = "global-const-" + c.desc;
+  }
+  else if (k == "NL") {
+    c.kind = K_NL; std::string nm; ss >> c.k >> nm >> c.a >> c.b; if (nm != "-") c.text = nm; S.nlabels = std::max(S.nlabels, c.k + 1);
+    if (ss.fail()) return false;
+    int cr = 0; if (ss >> cr) c.creator = cr; else ss.clear();
+  }
   else if (k == "B") { c.kind = K_B; ss >> c.k; }
   else if (k == "AL") { c.kind = K_AL; ss >> c.a >> c.b; }
   else if (k == "EM") { c.kind = K_EM; std::string h; ss >> h; c.data = unhex(h); }
@@ -360,6 +395,15 @@ struct Snap {
   std::string harness_error;
   std::string list_corrupt, list_corrupt_detail;   // builder runs: edit op after which the node list was found malformed
   bool skipped = false;            // edit run that could not be judged (call-time error while feeding)
+  std::vector<std::pair<int, uint32_t>> errs;      // go-on replays: every refused call (cid, code), sorted by cid
+  unsigned foreign_label_nodes = 0;
+  unsigned gc_planned = 0;         // GC calls whose constants are in the global pool of this run
+  bool gc_pool_placed = false;     // the pool was embedded after the last node (assembler / Builder runs) or by the Compiler's pass
+};
+
+struct RunOpts {
+  bool go_on = false;              // record refused calls and continue
+  int stop_cid = -1;               // node-order replay of the calls in front of call <stop_cid> only
 };
 
 struct Run {
@@ -372,8 +416,47 @@ struct Run {
   std::vector<ConstPoolNode*> cpnodes;
   BaseEmitter* e = nullptr;
   BaseBuilder* b = nullptr;   // non-null for Builder / Compiler runs
+  BaseCompiler* cc = nullptr; // non-null for Compiler runs
   Arena arena { 4096 };
+  std::unique_ptr<BaseEmitter> idle;      // second emitter on the same CodeHolder; only ever creates labels (NL creator 2)
+  std::vector<int> label_creator;
+  // global constant pool (GC calls): offsets planned in execution order, the pool the non-Compiler runs embed after the last node
+  std::map<int, size_t> gc_off;
+  std::vector<const Call*> gc_planned;
+  int gc_label = -1;
+  bool gc_label_pending = false;          // Compiler run: the label is created inside the first _new_const() call
+  unsigned gc_executed = 0;
+  bool go_on = false;                     // continue after a refused call; the emitter's own state reset is then under observation
+  unsigned foreign_label_nodes = 0;       // Builder runs: bind / embed_const_pool of a label the Builder did not create
 };
+
+// The constants of all GC calls that a run executes, in execution order (phase 1, then the calls issued by edits): the offsets are those
+// ConstPool hands out in that order (the Compiler's pool receives them in that order whatever the node order becomes).
+static void plan_global_pool(Run& r, const Script& S, bool with_edits) {
+  std::vector<const Call*> order;
+  for (int ci : S.phase1) order.push_back(&S.calls[size_t(ci)]);
+  if (with_edits)
+    for (const auto& ed : S.edits)
+      if (ed.op == "emit" || ed.op == "ni") {
+        auto it = S.by_cid.find(atoi(ed.a.c_str()));
+        if (it != S.by_cid.end()) order.push_back(&S.calls[size_t(it->second)]);
+      }
+  ConstPool pool(r.arena);
+  for (const Call* c : order) {
+    if (c->kind != K_GC) continue;
+    size_t off = 0;
+    (void)pool.add(c->data.data(), c->data.size(), Out(off));
+    r.gc_off[c->cid] = off;
+    r.gc_planned.push_back(c);
+    r.gc_label = c->k;
+  }
+}
+
+static BaseMem global_const_mem(uint32_t label_id, size_t off, size_t size) {
+  // what BaseCompiler::_new_const() documents to return: [label + offset] of the constant's size
+  return BaseMem(OperandSignature::from_op_type(OperandType::kMem) | OperandSignature::from_mem_base_type(RegType::kLabelTag) |
+                 OperandSignature::from_size(uint32_t(size)), label_id, 0, int32_t(off));
+}
 
 static bool init_run(Run& r, const Script& S, BaseEmitter* e, BaseBuilder* b, Snap& out) {
   r.S = &S; r.e = e; r.b = b;
@@ -404,6 +487,7 @@ static bool init_run(Run& r, const Script& S, BaseEmitter* e, BaseBuilder* b, Sn
   e->add_diagnostic_options(dopt);
   r.labels.assign(size_t(S.nlabels), Label());
   r.label_made.assign(size_t(S.nlabels), false);
+  r.label_creator.assign(size_t(S.nlabels), 0);
   r.cpnodes.assign(size_t(S.nlabels), nullptr);
   return true;
 }
@@ -414,10 +498,11 @@ static bool label_of(Run& r, int k, Label& out) {
   return true;
 }
 
-static bool materialize(Run& r, const Call& c, Operand* ops) {
+static bool materialize(Run& r, const Call& c, Operand* ops, const BaseMem* gc_mem = nullptr) {
   for (int i = 0; i < c.nops; i++) {
     const OpD& d = c.ops[i];
     if (d.kind == OP_FIXED) { ops[i] = d.op; continue; }
+    if (d.kind == OP_GCONST) { ops[i] = gc_mem ? Operand(*gc_mem) : Operand(); continue; }
     Label L;
     if (!label_of(r, d.label, L)) return false;
     if (d.kind == OP_LABEL) ops[i] = L;
@@ -442,22 +527,80 @@ static void build_pool(ConstPool& pool, const Call& c) {
 static Error exec_call(Run& r, const Call& c, std::string& hfail) {
   BaseEmitter* e = r.e;
   switch (c.kind) {
-    case K_I: {
+    case K_I: case K_JA: case K_GC: {
       Operand ops[6];
+      BaseMem gc_mem;
       if (c.bad) { hfail = "unparsable operand"; return Error::kInvalidArgument; }
-      if (!materialize(r, c, ops)) { hfail = "label used before creation"; return Error::kInvalidArgument; }
+      if (c.kind == K_GC) {
+        Label L;
+        if (!label_of(r, c.k, L)) { hfail = "global pool label used before creation"; return Error::kInvalidArgument; }
+        if (r.cc) {
+          Error err = r.cc->_new_const(Out(gc_mem), ConstPoolScope::kGlobal, c.data.data(), c.data.size());
+          if (err != Error::kOk) { hfail = "_new_const failed"; return err; }
+          // the label the script calls k is the pool's label: its id was predicted when the NL line was met
+          if (gc_mem.base_id() != L.id()) { hfail = "global pool label id out of sync with the script's label numbering"; return Error::kInvalidArgument; }
+          r.gc_label_pending = false;
+        }
+        else {
+          auto it = r.gc_off.find(c.cid);
+          if (it == r.gc_off.end()) { hfail = "GC call without planned offset"; return Error::kInvalidArgument; }
+          gc_mem = global_const_mem(L.id(), it->second, c.data.size());
+        }
+        r.gc_executed++;
+      }
+      if (!materialize(r, c, ops, &gc_mem)) { hfail = "label used before creation"; return Error::kInvalidArgument; }
       if (c.opts) e->set_inst_options(InstOptions(c.opts));
       if (c.has_extra) e->set_extra_reg(c.extra);
       if (c.has_comment) e->set_inline_comment(c.comment.c_str());
-      Error err = e->emit_op_array(c.inst_id, ops, size_t(c.nops));
-      if (err != Error::kOk) { e->reset_inst_options(); e->reset_extra_reg(); e->reset_inline_comment(); }
+      Error err;
+      if (c.kind == K_JA && r.cc) {
+        JumpAnnotation* ann = r.cc->new_jump_annotation();
+        if (!ann) { hfail = "new_jump_annotation failed"; return Error::kOutOfMemory; }
+        for (int k : c.ann) {
+          Label L;
+          if (!label_of(r, k, L)) { hfail = "annotation label used before creation"; return Error::kInvalidArgument; }
+          if (ann->add_label_id(L.id()) != Error::kOk) { hfail = "add_label_id failed"; return Error::kOutOfMemory; }
+        }
+        err = r.cc->emit_annotated_jump(c.inst_id, ops[0], ann);
+      }
+      else err = e->emit_op_array(c.inst_id, ops, size_t(c.nops));
+      // a refused instruction leaves the emitter's one-shot state (options, extra register, inline comment) reset - by the emitter itself;
+      // only the "go on after a refused call" replays rely on that, the first-error replays stop here anyway
+      if (err != Error::kOk && !r.go_on) { e->reset_inst_options(); e->reset_extra_reg(); e->reset_inline_comment(); }
       return err;
     }
     case K_NL: {
       size_t k = size_t(c.k);
       if (k >= r.labels.size() || r.label_made[k]) { hfail = "label created twice"; return Error::kInvalidArgument; }
       Label L;
-      if (c.b && r.b) {
+      r.label_creator[k] = c.creator;
+      if (c.b == 2 && r.cc) {
+        // label of the Compiler's global constant pool: BaseCompiler::_new_const() creates it (next free id) in the first GC call
+        L = Label(uint32_t(r.code.label_count()));
+        r.gc_label_pending = true;
+        r.labels[k] = L; r.label_made[k] = true;
+        return Error::kOk;
+      }
+      if (c.b != 1 && c.creator == 1) {
+        uint32_t id = Globals::kInvalidId;
+        Error err = c.text.empty() ? r.code.new_label_id(Out(id)) : r.code.new_named_label_id(Out(id), c.text.c_str(), c.text.size(), LabelType(c.a), Globals::kInvalidId);
+        if (err != Error::kOk) return err;
+        L = Label(id);
+      }
+      else if (c.b != 1 && c.creator == 2) {
+        if (!r.idle) {
+          if (r.S->arch == Arch::kAArch64) r.idle.reset(new a64::Assembler()); else r.idle.reset(new x86::Assembler());
+          if (r.code.attach(r.idle.get()) != Error::kOk) { hfail = "attaching the idle emitter failed"; return Error::kInvalidState; }
+        }
+        L = c.text.empty() ? r.idle->new_label() : r.idle->new_named_label(c.text.c_str(), c.text.size(), LabelType(c.a));
+      }
+      else if (c.b != 1 && c.creator == 3 && r.b) {
+        LabelNode* node = nullptr;
+        Error err = r.b->new_label_node(Out(node));
+        if (err != Error::kOk) return err;
+        L = node->label();
+      }
+      else if (c.b == 1 && r.b) {
         ConstPoolNode* node = nullptr;
         Error err = r.b->new_const_pool_node(Out(node));
         if (err != Error::kOk) return err;
@@ -470,7 +613,11 @@ static Error exec_call(Run& r, const Call& c, std::string& hfail) {
       r.labels[k] = L; r.label_made[k] = true;
       return Error::kOk;
     }
-    case K_B: { Label L; if (!label_of(r, c.k, L)) { hfail = "bind of unknown label"; return Error::kInvalidArgument; } return e->bind(L); }
+    case K_B: {
+      Label L; if (!label_of(r, c.k, L)) { hfail = "bind of unknown label"; return Error::kInvalidArgument; }
+      if (r.b && (r.label_creator[size_t(c.k)] == 1 || r.label_creator[size_t(c.k)] == 2)) r.foreign_label_nodes++;
+      return e->bind(L);
+    }
     case K_AL: return e->align(AlignMode(c.a), uint32_t(c.b));
     case K_EM: return e->embed(c.data.data(), c.data.size());
     case K_ED: return e->embed_data_array(TypeId(c.a), c.data.data(), size_t(c.b), size_t(c.c));
@@ -478,6 +625,7 @@ static Error exec_call(Run& r, const Call& c, std::string& hfail) {
       Label L; if (!label_of(r, c.k, L)) { hfail = "unknown label"; return Error::kInvalidArgument; }
       ConstPool pool(r.arena);
       build_pool(pool, c);
+      if (r.b && (r.label_creator[size_t(c.k)] == 1 || r.label_creator[size_t(c.k)] == 2)) r.foreign_label_nodes++;
       return e->embed_const_pool(L, pool);
     }
     case K_CN: {
@@ -613,12 +761,40 @@ static Error exec_token(Run& r, const std::string& tok, const Call*& call_out, s
   return r.e->embed_data_array(TypeId::kUInt8, buf.data(), pool.size(), 1);
 }
 
-static void run_asm(const Script& S, int mode /*0 = script order, 1 = R tokens, 2 = X tokens*/, Snap& out) {
+// the constants of the GC calls, embedded where the Compiler's GlobalConstPoolPass puts its pool: after the last node
+static Error embed_global_pool(Run& r, std::string& hfail) {
+  Label L;
+  if (!label_of(r, r.gc_label, L)) { hfail = "global pool label missing"; return Error::kInvalidArgument; }
+  ConstPool pool(r.arena);
+  for (const Call* c : r.gc_planned) { size_t off; (void)pool.add(c->data.data(), c->data.size(), Out(off)); }
+  return r.e->embed_const_pool(L, pool);
+}
+
+static void run_asm(const Script& S, int mode /*0 = script order, 1 = R tokens, 2 = X tokens*/, Snap& out, const RunOpts& ro = RunOpts()) {
   AsmHolder H;
   Run r;
   BaseEmitter* e = H.get(S.arch);
   if (!init_run(r, S, e, nullptr, out)) return;
   out.ran = true;
+  r.go_on = ro.go_on;
+  // which phase-1 calls lie in front of the call the replay stops at (all of them without a stop)
+  std::set<int> in_front;
+  std::set<std::string> tokens_in_front;
+  if (ro.stop_cid >= 0) {
+    tokens_in_front.insert("S0");
+    for (int ci : S.phase1) {
+      const Call& c = S.calls[size_t(ci)];
+      if (c.cid == ro.stop_cid) break;
+      in_front.insert(c.cid);
+      std::string cid = std::to_string(c.cid);
+      if (c.kind == K_SE) tokens_in_front.insert("S" + std::to_string(c.a));
+      else if (c.kind == K_B) tokens_in_front.insert("L" + std::to_string(c.k));
+      else if (c.kind == K_CP) { tokens_in_front.insert(cid); tokens_in_front.insert(cid + ".a"); tokens_in_front.insert(cid + ".d"); tokens_in_front.insert("L" + std::to_string(c.k)); }
+      else if (c.kind != K_NL) tokens_in_front.insert(cid);
+    }
+  }
+  else plan_global_pool(r, S, mode == 2);
+  out.gc_planned = unsigned(r.gc_planned.size());
   BaseAssembler* ba = static_cast<BaseAssembler*>(e);
   std::string hfail;
   auto track = [&](const std::string& tok, const Call* c, uint32_t sec0, size_t off0) {
@@ -634,7 +810,23 @@ static void run_asm(const Script& S, int mode /*0 = script order, 1 = R tokens, 
       Error err = exec_call(r, c, hfail);
       if (!hfail.empty()) { out.harness_error = hfail + " (cid " + std::to_string(c.cid) + ")"; return; }
       track(std::to_string(c.cid), &c, sec0, off0);
-      if (err != Error::kOk) { out.err = uint32_t(err); out.err_at = std::to_string(c.cid); out.err_desc = c.desc; out.call_error_cid = c.cid; break; }
+      if (err != Error::kOk) {
+        if (ro.go_on) { out.errs.push_back({ c.cid, uint32_t(err) }); continue; }
+        out.err = uint32_t(err); out.err_at = std::to_string(c.cid); out.err_desc = c.desc; out.call_error_cid = c.cid; break;
+      }
+    }
+    if (out.err == 0 && !r.gc_planned.empty()) {
+      // the pool goes where the node list ends: the section of the last SectionNode in node order
+      size_t last_sec = 0;
+      for (const std::string& tok : S.R) if (tok[0] == 'S') last_sec = size_t(atoi(tok.c_str() + 1));
+      uint32_t sec0 = ba->current_section()->section_id(); size_t off0 = ba->offset();
+      Error err = Error::kOk;
+      if (last_sec < r.secs.size() && r.secs[last_sec] != ba->current_section()) { err = e->section(r.secs[last_sec]); sec0 = ba->current_section()->section_id(); off0 = ba->offset(); }
+      if (err == Error::kOk) err = embed_global_pool(r, hfail);
+      if (!hfail.empty()) { out.harness_error = hfail; return; }
+      track("gcpool", nullptr, sec0, off0);
+      out.gc_pool_placed = true;
+      if (err != Error::kOk) { out.err = uint32_t(err); out.err_at = "gcpool"; out.err_desc = "global-const-pool"; }
     }
   }
   else {
@@ -643,21 +835,36 @@ static void run_asm(const Script& S, int mode /*0 = script order, 1 = R tokens, 
       for (int ci : (pass == 1 ? S.phase1 : S.phase2)) {
         const Call& c = S.calls[size_t(ci)];
         if (c.kind != K_NL) continue;
+        if (ro.stop_cid >= 0 && !in_front.count(c.cid)) continue;
         Error err = exec_call(r, c, hfail);
         if (!hfail.empty() || err != Error::kOk) { out.harness_error = "label creation failed: " + hfail; return; }
       }
     }
     for (const std::string& tok : (mode == 1 ? S.R : S.X)) {
+      if (ro.stop_cid >= 0 && !tokens_in_front.count(tok)) continue;
       const Call* c = nullptr; std::string desc;
       uint32_t sec0 = ba->current_section()->section_id(); size_t off0 = ba->offset();
       Error err = exec_token(r, tok, c, desc, hfail);
       if (!hfail.empty()) { out.harness_error = hfail; return; }
       track(tok, c, sec0, off0);
       out.extents.back().tok = tok + "(" + desc + ")";
-      if (err != Error::kOk) { out.err = uint32_t(err); out.err_at = tok; out.err_desc = desc; if (c) out.call_error_cid = c->cid; break; }
+      if (err != Error::kOk) {
+        if (ro.go_on) { out.errs.push_back({ c ? c->cid : -1, uint32_t(err) }); continue; }
+        out.err = uint32_t(err); out.err_at = tok; out.err_desc = desc; if (c) out.call_error_cid = c->cid; break;
+      }
+    }
+    if (out.err == 0 && !r.gc_planned.empty()) {
+      uint32_t sec0 = ba->current_section()->section_id(); size_t off0 = ba->offset();
+      Error err = embed_global_pool(r, hfail);
+      if (!hfail.empty()) { out.harness_error = hfail; return; }
+      track("gcpool", nullptr, sec0, off0);
+      out.extents.back().tok = "gcpool(global-const-pool)";
+      out.gc_pool_placed = true;
+      if (err != Error::kOk) { out.err = uint32_t(err); out.err_at = "gcpool"; out.err_desc = "global-const-pool"; }
     }
   }
-  snapshot(r, out, out.err == 0);
+  std::sort(out.errs.begin(), out.errs.end());
+  snapshot(r, out, out.err == 0 && ro.stop_cid < 0);
 }
 
 // --- builder / compiler runs -----------------------------------------------------------------------------------------
@@ -712,12 +919,16 @@ static std::string list_defect(BaseBuilder* b, size_t limit) {
   return "";
 }
 
-static void run_builder(const Script& S, bool compiler, bool with_edits, Snap& out) {
+static void run_builder(const Script& S, bool compiler, bool with_edits, Snap& out, const RunOpts& ro = RunOpts()) {
   BuilderHolder H(S.arch, compiler);
   Run r;
   BaseBuilder* b = H.b.get();
   if (!init_run(r, S, b, b, out)) return;
   out.ran = true;
+  r.go_on = ro.go_on;
+  if (compiler) r.cc = static_cast<BaseCompiler*>(b);
+  plan_global_pool(r, S, with_edits);
+  out.gc_planned = unsigned(r.gc_planned.size());
   std::string hfail;
   std::map<std::string, BaseNode*> nodes;
   if (b->first_node()) nodes["S0"] = b->first_node();
@@ -727,11 +938,13 @@ static void run_builder(const Script& S, bool compiler, bool with_edits, Snap& o
     Error err = exec_call(r, c, hfail);
     if (!hfail.empty()) { out.harness_error = hfail + " (cid " + std::to_string(c.cid) + ")"; return; }
     if (err != Error::kOk) {
+      if (ro.go_on) { out.errs.push_back({ c.cid, uint32_t(err) }); continue; }
       out.err = uint32_t(err); out.err_at = std::to_string(c.cid); out.err_desc = c.desc; out.call_error = true; out.call_error_cid = c.cid;
       stop = true; break;
     }
     if (!register_nodes(r, c, nodes, hfail)) { out.harness_error = hfail; return; }
   }
+  std::sort(out.errs.begin(), out.errs.end());
   if (with_edits) {
     if (stop) { out.skipped = true; return; }
     auto node_of = [&](const std::string& key) -> BaseNode* {
@@ -752,6 +965,22 @@ static void run_builder(const Script& S, bool compiler, bool with_edits, Snap& o
         if (!c) { out.harness_error = "edit references unknown call " + ed.a; return; }
         Error err = Error::kOk;
         if (ed.op == "emit") err = exec_call(r, *c, hfail);
+        else if (c->kind == K_AL) {
+          AlignNode* node = nullptr;
+          err = b->new_align_node(Out(node), AlignMode(c->a), uint32_t(c->b));
+          if (err == Error::kOk) b->add_node(node);
+        }
+        else if (c->kind == K_EM || c->kind == K_ED) {
+          EmbedDataNode* node = nullptr;
+          err = c->kind == K_EM ? b->new_embed_data_node(Out(node), TypeId::kUInt8, c->data.data(), c->data.size())
+                                : b->new_embed_data_node(Out(node), TypeId(c->a), c->data.data(), size_t(c->b), size_t(c->c));
+          if (err == Error::kOk) b->add_node(node);
+        }
+        else if (c->kind == K_CM) {
+          CommentNode* node = nullptr;
+          err = b->new_comment_node(Out(node), c->text.c_str(), c->text.size());
+          if (err == Error::kOk) b->add_node(node);
+        }
         else {
           // the InstNode is created by hand: new_inst_node + set_op + add_node
           Operand ops[6];
@@ -814,6 +1043,19 @@ static void run_builder(const Script& S, bool compiler, bool with_edits, Snap& o
       return;
     }
   }
+  if (!compiler && !stop && !r.gc_planned.empty()) {
+    // a plain Builder has no global constant pool: the constants are embedded after the last node, like the Compiler's pass does
+    b->set_cursor(b->last_node());
+    Error err = embed_global_pool(r, hfail);
+    if (!hfail.empty()) { out.harness_error = hfail; return; }
+    if (err != Error::kOk) { out.harness_error = "embedding the global pool into the Builder failed"; return; }
+    out.gc_pool_placed = true;
+  }
+  if (compiler && r.gc_label_pending) {
+    // NL of the global pool's label without any GC call executed (a minimizer cut): the label does not exist in this run
+    out.harness_error = "global pool label announced but no GC call executed"; return;
+  }
+  out.foreign_label_nodes = r.foreign_label_nodes;
   for (BaseNode* n = b->first_node(); n; n = n->next()) {
     out.node_count++;
     out.node_kinds |= 1u << (uint32_t(n->type()) & 31);
@@ -821,6 +1063,7 @@ static void run_builder(const Script& S, bool compiler, bool with_edits, Snap& o
   }
   Error ferr = b->finalize();
   out.finalize_err = uint32_t(ferr);
+  if (compiler && ferr == Error::kOk && !r.gc_planned.empty()) out.gc_pool_placed = true;
   if (!out.call_error) {
     out.err = uint32_t(ferr);
     if (ferr != Error::kOk) { out.err_at = "finalize"; }
@@ -867,6 +1110,8 @@ static std::string vec_diff(const std::vector<std::string>& a, const std::vector
 // compares a reference assembler run with a builder/compiler run; returns (component, detail, culprit)
 struct Diff { std::string comp, detail, culprit; };
 
+static bool compare_state(const Snap& ref, const Snap& got, Diff& d);
+
 static bool compare_full(const Snap& ref, const Snap& got, Diff& d) {
   if (ref.err != got.err) {
     d.comp = "error";
@@ -875,6 +1120,11 @@ static bool compare_full(const Snap& ref, const Snap& got, Diff& d) {
                    got.err, DebugUtils::error_as_string(Error(got.err)), got.err_at.c_str());
     return false;
   }
+  return compare_state(ref, got, d);
+}
+
+// everything but the error outcome
+static bool compare_state(const Snap& ref, const Snap& got, Diff& d) {
   std::string s = vec_diff(ref.sec_meta, got.sec_meta, "section");
   if (!s.empty()) { d.comp = "sections"; d.detail = s; d.culprit = "-"; return false; }
   for (size_t i = 0; i < ref.sec_bytes.size(); i++) {
@@ -941,7 +1191,11 @@ struct Result {
   int raw_equal_script_order = -1;
   int first_error_compared = 0;
   int call_time_error_compared = 0;
-  uint32_t kinds = 0, nodes = 0, kinds_edit = 0, nodes_edit = 0;
+  int state_before_refused_call_compared = 0;
+  int go_on = 0;         // 0 not tried, 1 judged (state after a refused call compared), 2 not comparable (the Builder reports at finalize), 3 no call refused
+  int go_on_calls_after_refusal = 0;
+  unsigned foreign_label_nodes = 0, gc_calls = 0, gc_pools = 0, gc_pools_edit = 0;
+  uint32_t kinds = 0, nodes = 0, kinds_edit = 0, nodes_edit = 0, kinds_compiler = 0;
   std::string log_note;
   std::string errR_at, errR_desc, log_class;
 };
@@ -969,8 +1223,24 @@ static void judge_plain(const Script& S, const Snap& A, const Snap& R, const Sna
       return;
     }
     res.call_time_error_compared++;
-    // the nodes accepted before the refused call must still serialize to what the assembler produced before it
-    if (B.finalize_err == 0) {
+    // the nodes accepted before the refused call must still serialize to what the assembler produces for them: the node-order replay of
+    // exactly the calls in front of the refused one (sections, bytes, labels, relocations, fixups). Not with a global constant pool: the
+    // Compiler appends what the pool holds so far.
+    if (B.finalize_err == 0 && B.gc_planned == 0) {
+      Snap Rt;
+      RunOpts ro; ro.stop_cid = B.call_error_cid;
+      run_asm(S, 1, Rt, ro);
+      if (!Rt.harness_error.empty()) { res.harness = "asm(calls in front of the refused call): " + Rt.harness_error; return; }
+      if (Rt.err == 0) {
+        Diff d;
+        res.state_before_refused_call_compared++;
+        if (!compare_state(Rt, B, d)) {
+          res.viol.push_back({ d.comp + ":" + d.culprit + ":before-call-time-error" + post, "state after finalize() differs from assembling the calls in front of the refused call " + B.err_at + ": " + d.detail });
+          return;
+        }
+      }
+    }
+    if (B.finalize_err == 0 && B.gc_planned == 0) {
       for (size_t i = 0; i < A.sec_bytes.size() && i < B.sec_bytes.size(); i++) {
         // with several sections the builder's section grouping may legitimately turn an embed_label_delta relocation into a constant:
         // only the sizes are comparable then
@@ -1024,6 +1294,59 @@ static void judge_plain(const Script& S, const Snap& A, const Snap& R, const Sna
   }
 }
 
+// "Go on after a refused call": every emitter ignores the error of a refused call and continues with the next one. When Builder / Compiler
+// refuse exactly the calls the Assembler refuses (same codes), everything they produce must equal what the Assembler produces from the same
+// sequence - in particular a refused instruction must not leave options, an extra register or an inline comment behind for the next one.
+// A Builder that accepts the offending call as a node and reports it from finalize() is judged by the first-error rule only (see judge_plain).
+static void judge_go_on(const Script& S, Result& res) {
+  Snap A, R;
+  RunOpts ro; ro.go_on = true;
+  run_asm(S, 0, A, ro);
+  if (!A.harness_error.empty()) { res.harness = "asm(script order, go on): " + A.harness_error; return; }
+  if (A.errs.empty()) { res.go_on = 3; return; }
+  run_asm(S, 1, R, ro);
+  if (!R.harness_error.empty()) { res.harness = "asm(node order, go on): " + R.harness_error; return; }
+  res.go_on = 2;
+  if (R.errs != A.errs || A.err || R.err) return;    // an error that depends on the position (jump range, ...): not this replay's subject
+  int after = 0;
+  {
+    bool seen = false;
+    for (int ci : S.phase1) {
+      const Call& c = S.calls[size_t(ci)];
+      if (seen && c.kind != K_NL) after++;
+      for (const auto& ae : A.errs) if (ae.first == c.cid) { seen = true; after = 0; }
+    }
+  }
+  for (int pass = 0; pass < 2; pass++) {
+    const char* who = pass ? "compiler" : "builder";
+    std::string post = std::string(":go-on:") + arch_family(S) + ":" + who;
+    Snap B;
+    run_builder(S, pass == 1, false, B, ro);
+    if (!B.harness_error.empty()) { res.harness = std::string(who) + "(go on): " + B.harness_error; return; }
+    if (!B.list_corrupt.empty()) { res.viol.push_back({ "node-list-corrupt:" + B.list_corrupt + post, B.list_corrupt_detail }); return; }
+    // every call the builder refuses must be refused by the assembler with the same code
+    for (const auto& be : B.errs) {
+      bool found = false;
+      for (const auto& ae : A.errs) if (ae == be) found = true;
+      if (!found) {
+        const Call* c = call_by_cid(S, be.first);
+        res.viol.push_back({ "error:call-time:" + (c ? c->desc : std::string("?")) + post,
+          fmt("%s refused call %d with error %u (%s); the assembler, going on after refused calls as well, did not refuse that call with that code", who, be.first, be.second,
+              DebugUtils::error_as_string(Error(be.second))) });
+        return;
+      }
+    }
+    if (B.errs != A.errs) continue;             // accepted as a node: reported by finalize(), first-error rule
+    Diff d;
+    if (!compare_full(R, B, d)) {
+      res.viol.push_back({ d.comp + ":" + d.culprit + post, fmt("after call %d was refused by both and the script went on: ", A.errs.front().first) + d.detail });
+      return;
+    }
+    res.go_on = 1;
+    res.go_on_calls_after_refusal += after;
+  }
+}
+
 static void judge(const Script& S, Result& res) {
   Snap A, R, B, C;
   run_asm(S, 0, A);
@@ -1044,9 +1367,16 @@ static void judge(const Script& S, Result& res) {
   judge_plain(S, A, R, B, "builder", res);
   if (!res.harness.empty()) return;
   run_builder(S, true, false, C);
-  res.errC = C.err;
+  res.errC = C.err; res.kinds_compiler = C.node_kinds;
   judge_plain(S, A, R, C, "compiler", res);
   if (!res.harness.empty()) return;
+  res.foreign_label_nodes = B.foreign_label_nodes + C.foreign_label_nodes;
+  res.gc_calls = C.gc_planned;
+  res.gc_pools = (C.gc_pool_placed && R.gc_pool_placed && C.err == 0) ? 1 : 0;
+  if ((S.flags & F_CONTINUE) && res.viol.empty()) {
+    judge_go_on(S, res);
+    if (!res.harness.empty()) return;
+  }
   if (S.has_X) {
     Snap R2, B2;
     bool compiler = (S.flags & F_EDIT_COMPILER) != 0;
@@ -1057,6 +1387,8 @@ static void judge(const Script& S, Result& res) {
     if (!B2.harness_error.empty()) { res.harness = std::string(who) + "(edit): " + B2.harness_error; return; }
     res.errR2 = R2.err; res.errB2 = B2.err;
     res.kinds_edit = B2.node_kinds; res.nodes_edit = B2.node_count;
+    res.foreign_label_nodes += B2.foreign_label_nodes;
+    if (compiler && B2.gc_pool_placed && R2.gc_pool_placed && B2.err == 0) res.gc_pools_edit = 1;
     if (!B2.list_corrupt.empty()) {
       res.edit = 1;
       res.viol.push_back({ "node-list-corrupt:" + B2.list_corrupt + ":edit:" + arch_family(S) + ":" + who, B2.list_corrupt_detail });
@@ -1126,6 +1458,8 @@ int main(int argc, char** argv) {
       out += fmt(",\"errA\":%u,\"errR\":%u,\"errB\":%u,\"errC\":%u,\"errR2\":%u,\"errB2\":%u,\"edit\":%d,\"amb\":%d,\"log\":%d,\"raw_eq\":%d,\"fec\":%d,\"ctec\":%d,\"kinds\":%u,\"nodes\":%u,\"kinds_edit\":%u,\"nodes_edit\":%u",
                  res.errA, res.errR, res.errB, res.errC, res.errR2, res.errB2, res.edit, res.ambiguous, res.log_cmp, res.raw_equal_script_order,
                  res.first_error_compared, res.call_time_error_compared, res.kinds, res.nodes, res.kinds_edit, res.nodes_edit);
+      out += fmt(",\"kinds_compiler\":%u,\"sbrc\":%d,\"go_on\":%d,\"go_on_after\":%d,\"foreign\":%u,\"gc_calls\":%u,\"gc_pools\":%u,\"gc_edit\":%u",
+                 res.kinds_compiler, res.state_before_refused_call_compared, res.go_on, res.go_on_calls_after_refusal, res.foreign_label_nodes, res.gc_calls, res.gc_pools, res.gc_pools_edit);
       if (res.errR) out += ",\"errR_at\":" + jstr(res.errR_at) + ",\"errR_desc\":" + jstr(res.errR_desc);
       if (!res.harness.empty()) out += ",\"harness\":" + jstr(res.harness);
       if (!res.log_note.empty()) out += ",\"log_note\":" + jstr(res.log_note) + ",\"log_class\":" + jstr(res.log_class);
